@@ -565,8 +565,8 @@ class AnsiString:
               are not internally modified after creation.
         '''
         if isinstance(val, int):
-            st = val
-            en = val + 1
+            st = val if val >= 0 else len(self._s) + val
+            en = st + 1
         elif isinstance(val, slice):
             if val.step is not None and val.step != 1:
                 raise ValueError('Step other than 1 not supported')
